@@ -603,18 +603,28 @@ func c11Configs() []c11Config {
 			{byName("dup-windows"), 2, false},
 		}
 	}
-	// ordered so that a budget-capped run has seen every kind of exploration first
+	// ordered so that a budget-capped run (busy machine) has seen every kind of exploration
+	// first: the quick scenarios, then ALL same-lease triples, then the remaining fixed
+	// scenarios, file-backed runs, MaxAcctLookback 2, and the pairs
 	var cfgs []c11Config
 	nfixed := len(fixed)
-	for sc := 0; sc < nfixed; sc++ {
-		cfgs = append(cfgs, c11Config{sc, 0, true})
-	}
-	for _, n := range []string{"dup-windows", "lease-succession", "triple-1"} {
-		cfgs = append(cfgs, c11Config{byName(n), 0, false}, c11Config{byName(n), 1, false})
+	first := []string{"dup-windows", "lease-isolation-lite", "triple-1", "triple-2", "lease-succession"}
+	isFirst := map[int]bool{}
+	for _, n := range first {
+		cfgs = append(cfgs, c11Config{byName(n), 0, true})
+		isFirst[byName(n)] = true
 	}
 	npairs := len(c11PairScenarios())
 	for i := range c11TripleScenarios() {
 		cfgs = append(cfgs, c11Config{nfixed + npairs + i, 0, true})
+	}
+	for sc := 0; sc < nfixed; sc++ {
+		if !isFirst[sc] {
+			cfgs = append(cfgs, c11Config{sc, 0, true})
+		}
+	}
+	for _, n := range []string{"dup-windows", "triple-1"} {
+		cfgs = append(cfgs, c11Config{byName(n), 0, false}, c11Config{byName(n), 1, false})
 	}
 	for sc := 0; sc < nfixed; sc++ {
 		cfgs = append(cfgs, c11Config{sc, 2, true})
